@@ -7,6 +7,7 @@
 package keeper
 
 //@ import types "github.com/ovrclk/akash/x/deployment/types"
+//@ import sdk "github.com/cosmos/cosmos-sdk/types"
 
 // ---- store layout (C06) ----
 //@ spec abstract deploymentKeyOf(id: types.DeploymentID): str = "\x01" + id.Owner + be64(id.DSeq)
@@ -222,6 +223,12 @@ package keeper
 //@ func (Keeper).OnLeaseClosed
 //@   ensures (result1 == nil) <==> KVhas[k.skey][groupKeyOf(id)]
 //@   ensures result1 == nil ==> result0 == grpOf(KVval[k.skey], id)
+
+// module parameters live in the params subspace (A-PARAMS): read as an abstract function of the context
+//@ spec depParams(ctx: sdk.Context): types.Params
+//@ func (Keeper).GetParams
+//@   trusted
+//@   ensures params == depParams(ctx)
 
 //@ property C04 := (Keeper).Create#*, (Keeper).GetDeployment#*, (Keeper).GetGroup#*, (Keeper).GetGroups#*, (Keeper).UpdateDeployment#*, (Keeper).CloseDeployment#*,
 //@                 (Keeper).OnCloseGroup#*, (Keeper).OnPauseGroup#*, (Keeper).OnStartGroup#*, (Keeper).OnBidClosed#*, (Keeper).OnLeaseClosed#*,
